@@ -215,6 +215,28 @@ Definition vmon (c : vocase) : bool :=
   | CSOp s deser reser => so_eqb reser (sop_norm HP s)
   end.
 
-Inductive case := KT (c : tcase) | KV (c : vocase).
-Definition corr (c : case) : bool := match c with KT x => tcorr x | KV x => vcorr x end.
-Definition mon (c : case) : bool := match c with KT x => tmon x | KV x => vmon x end.
+(* ---------------------------------------------------------------------------------------------------
+   whole documents that were not produced by this library: load, re-save *)
+From HV Require Export model.CodecDoc.
+Definition sdoc' := sdoc HP.
+Definition d_load := from_serial HP HP hid (hp_type []).
+Definition d_save := to_serial HP HP hid (hp_type []).
+Definition d_norm := sdoc_norm HP HP hid (hp_type []) (sop_norm HP).
+Definition d_eqb := sdoc_eqb HP N.eqb.
+Inductive dcase :=
+(* input document (walk of the validated SerialHugr), load raised?, walk of the re-saved document, and the
+   public-API check that every edge written without a source offset is an order link of the loaded HUGR *)
+| CDoc (s : sdoc') (raised : bool) (reser : sdoc') (order_links_ok : bool).
+Definition dcorr (c : dcase) : bool :=
+  match c with CDoc s raised reser _ => negb raised && d_eqb reser (d_save (d_load s)) end.
+Definition dmon (c : dcase) : bool :=
+  match c with
+  | CDoc s raised reser ok =>
+      if edges_wf HP HP hid (hp_type []) s then negb raised && ok && d_eqb reser (d_norm s) &&
+         Nat.eqb (length (sd_edges HP reser)) (length (sd_edges HP s))
+      else true
+  end.
+
+Inductive case := KT (c : tcase) | KV (c : vocase) | KD (c : dcase).
+Definition corr (c : case) : bool := match c with KT x => tcorr x | KV x => vcorr x | KD x => dcorr x end.
+Definition mon (c : case) : bool := match c with KT x => tmon x | KV x => vmon x | KD x => dmon x end.
